@@ -592,6 +592,101 @@ func parseOptionsUses(p *packages.Package) []string {
 	return uniq(out)
 }
 
+// stringSwitches: for every function, the string-literal case lists of its switch statements, in source order
+// (clauses with a non-literal expression are skipped).
+func stringSwitches(pkgs []*packages.Package) []string {
+	var out []string
+	for _, p := range pkgs {
+		if !strings.Contains(p.PkgPath, "gofrundis") {
+			continue
+		}
+		for _, f := range p.Syntax {
+			if isHookFile(p.Fset.Position(f.Pos()).Filename) {
+				continue
+			}
+			for _, d := range f.Decls {
+				fd, ok := d.(*ast.FuncDecl)
+				if !ok || fd.Body == nil {
+					continue
+				}
+				var clauses []string
+				ast.Inspect(fd.Body, func(n ast.Node) bool {
+					sw, ok := n.(*ast.SwitchStmt)
+					if !ok || sw.Tag == nil {
+						return true
+					}
+					for _, c := range sw.Body.List {
+						cc := c.(*ast.CaseClause)
+						if len(cc.List) == 0 {
+							continue
+						}
+						var lits []string
+						all := true
+						for _, e := range cc.List {
+							bl, ok := e.(*ast.BasicLit)
+							if !ok || bl.Kind != token.STRING {
+								all = false
+								break
+							}
+							v, _ := strconv.Unquote(bl.Value)
+							lits = append(lits, coqStr(v))
+						}
+						if all {
+							clauses = append(clauses, "["+strings.Join(lits, "; ")+"]")
+						}
+					}
+					return true
+				})
+				if len(clauses) > 0 {
+					name := p.Name + "." + fd.Name.Name
+					out = append(out, fmt.Sprintf("(%s,\n    [%s])", coqStr(name), strings.Join(clauses, ";\n     ")))
+				}
+			}
+		}
+	}
+	sort.Strings(out)
+	return out
+}
+
+// stringSliceAssign: the []string literal assigned to a field or variable called name, anywhere in package p.
+func stringSliceAssign(p *packages.Package, name string) []string {
+	var out []string
+	for _, f := range p.Syntax {
+		ast.Inspect(f, func(n ast.Node) bool {
+			as, ok := n.(*ast.AssignStmt)
+			if !ok || len(as.Lhs) != 1 || len(as.Rhs) != 1 {
+				return true
+			}
+			sel, ok := as.Lhs[0].(*ast.SelectorExpr)
+			if !ok || sel.Sel.Name != name {
+				return true
+			}
+			cl, ok := as.Rhs[0].(*ast.CompositeLit)
+			if !ok {
+				return true
+			}
+			for _, e := range cl.Elts {
+				if bl, ok := e.(*ast.BasicLit); ok && bl.Kind == token.STRING {
+					v, _ := strconv.Unquote(bl.Value)
+					out = append(out, coqStr(v))
+				}
+			}
+			return true
+		})
+	}
+	return out
+}
+
+// intConst: value of an untyped integer constant of package p.
+func intConst(p *packages.Package, name string) string {
+	obj := p.Types.Scope().Lookup(name)
+	c, ok := obj.(*types.Const)
+	if !ok {
+		die("constant %s not found", name)
+	}
+	return c.Val().ExactString()
+}
+
 func genFacts(pkgs []*packages.Package, out string) {
 	prog, _ := ssautil.AllPackages(pkgs, ssa.InstantiateGenerics)
 	prog.Build()
@@ -925,6 +1020,9 @@ func genFacts(pkgs []*packages.Package, out string) {
 	fmt.Fprintf(&b, "Definition minimal_dispatch_table : list (string * string) :=\n  [%s].\n\n", strings.Join(dispatchTable(fr, "MinimalExporterMacros"), ";\n   "))
 	fmt.Fprintf(&b, "(* options.go: per option table, option name and whether it takes an argument *)\nDefinition opt_specs : list (string * list (string * bool)) :=\n  [%s].\n\n", strings.Join(optionSpecs(fr), ";\n   "))
 	fmt.Fprintf(&b, "(* which table each function hands to ParseOptions *)\nDefinition parse_options_uses : list (string * string) :=\n  [%s].\n\n", strings.Join(parseOptionsUses(fr), ";\n   "))
+	fmt.Fprintf(&b, "(* string-literal case lists of every switch, per function *)\nDefinition string_switches : list (string * list (list string)) :=\n  [%s].\n\n", strings.Join(stringSwitches(pkgs), ";\n   "))
+	fmt.Fprintf(&b, "Definition valid_formats : list string :=\n  [%s].\n\n", strings.Join(stringSliceAssign(fr, "validFormats"), "; "))
+	fmt.Fprintf(&b, "Definition max_macro_expansions : N := %s.\nDefinition max_macro_args_size : N := %s.\n\n", intConst(fr, "maxMacroExpansions"), intConst(fr, "maxMacroArgsSize"))
 	fmt.Fprintf(&b, "(* processBlock: macro names that do not become PrevMacro *)\nDefinition invisible_names : list string :=\n  [%s].\n\n", strings.Join(nameEqLits(fr, "processBlock"), "; "))
 	var files []string
 	for f := range perFile {
